@@ -97,6 +97,52 @@ def run(ctx: Ctx, rep: Report) -> None:
     from .C06 import clone_rule
     clone_rule(ctx, rep)
     capable(ctx, rep)
+    targetdim(ctx, rep)
+
+
+def targetdim(ctx: Ctx, rep: Report) -> None:
+    """TARGETDIM: `Circuit.instantiate` documents a ValueError for a target
+    of the wrong dimension; the native engines abort the process or panic
+    on one.  Every multi-start entry point (the base class's and every
+    override) that classifies the target with `check_target` compares its
+    dimension with the circuit's before anything else uses it."""
+    R = 'TARGETDIM'
+    n = 0
+    for c in ctx.index.classes.values():
+        if not c.path.startswith('bqskit/ir/opt/'):
+            continue
+        for name, f in c.methods.items():
+            if not name.startswith('multi_start_instantiate'):
+                continue
+            calls = [k for k in ast.walk(f.node) if isinstance(k, ast.Call)]
+            chk = [k for k in calls if norm(k.func) == 'self.check_target']
+            if not chk:
+                continue  # delegates to an entry point that does
+            n += 1
+            rep.count()
+            rep.seen(f.qualname)
+            dim = [
+                k for k in calls
+                if norm(k.func).endswith('check_target_dim')
+            ] + [
+                k for k in ast.walk(f.node) if isinstance(k, ast.Compare)
+                and '.dim' in norm(k)
+            ]
+            # (helpers are inlined by the engine's de-extraction, so line
+            # numbers do not order the check and the uses; presence decides)
+            ok = bool(dim)
+            rep.check(
+                ok, R, f'{c.name}.{name}', f.path, f.lineno,
+                'the target\'s dimension is compared with the circuit\'s '
+                'before the target is used',
+                f'{c.name}.{name} classifies the target and hands it to the '
+                'start generator / the native engine without comparing its '
+                'dimension with the circuit\'s: a wrong-size target aborts '
+                'the interpreter (minimization), panics (qfactor) or is '
+                'silently accepted (states)',
+                key='no-dim-check',
+            )
+    rep.floor(R, n, 4, 'multi-start entry points')
 
 
 def capable(ctx: Ctx, rep: Report) -> None:
